@@ -234,6 +234,13 @@ def bytes_eq(it, a, b):
         if isinstance(u, (bytes, bytearray)):
             return it.eng.uf('BytesEqConst:' + bytes(u).hex(), [o], lambda x, y: z3.BoolVal(x is y))
         return _sym_uf(it, 'BytesEq', a, b)
+    wa, wb = getattr(a, 'ws_suffix', False), getattr(b, 'ws_suffix', False)
+    if wa or wb:
+        # canonical bytes followed by white space: never equal to canonical bytes (which end in a value), equal to another such value part-wise
+        if wa and wb:
+            return z3.And(bytes_eq(it, a.parts[0], b.parts[0]), z3.BoolVal(bytes(a.parts[1]) == bytes(b.parts[1])))
+        if (b if wa else a).kind == 'canon':
+            return z3.BoolVal(False)
     if a.kind == b.kind:
         return opaque_eq(it, a, b)
     if a.kind in FIXED_LEN and b.kind in FIXED_LEN and FIXED_LEN[a.kind] != FIXED_LEN[b.kind]:
